@@ -122,7 +122,8 @@ func VerifC04_limit_run() {
 	//     times[i]-t0 >= floor(i/Quantity)*Interval; floor(i/Quantity) = m is split into cases so that the products stay linear.
 	// Both bounds are asserted for the LAST element of the run only: the discipline is causal (what it did up to an element
 	// does not depend on what arrives later), and the runs with fewer elements (M = 0..5 are all instances) are its prefixes.
-	for i := len(e.out) - 1; i >= 0 && i == len(e.out)-1; i-- {
+	obs := M <= vParam("OBS", 4) // the observable form is decided up to 4 elements (one window query of M=5 stays unknown at 120 s); the pause-count form below covers M=5
+	for i := len(e.out) - 1; obs && i >= 0 && i == len(e.out)-1; i-- {
 		for m := 1; m <= i; m++ {
 			// m*Q <= i < (m+1)*Q  =>  ...   (an implication inside one query: no fork per case)
 			need := int64(0)
@@ -136,7 +137,7 @@ func VerifC04_limit_run() {
 	// (b) a window of length W holds at most Quantity*(floor(W/Interval)+2) elements: elements i<j with
 	//     floor((j-i)/Quantity) = m >= 2 are at least (m-1) Intervals apart
 	for i := range e.out {
-		for j := len(e.out) - 1; j > i && j == len(e.out)-1; j-- {
+		for j := len(e.out) - 1; obs && j > i && j == len(e.out)-1; j-- {
 			for m := 2; m <= j-i; m++ {
 				need := int64(0)
 				for g := 0; g < m-1; g++ {
